@@ -21,7 +21,7 @@ def run(ctx):
     for c in (["raw_p2", "lz_p2"] if ctx.tier == "quick" else ["raw_p2", "lz_p2", "raw_p3", "lz_p3"]):
         r = C.run_tlc("PackLayout", "MC_PackLayout_%s.cfg" % c, workdir=ctx.work, workers=4, xmx="6g", timeout=1500)
         C.tlc_must_pass(r, "PackLayout " + c)
-        ctx.add_mc("PackLayout_" + c, r, required_actions=("Next",))
+        ctx.add_mc("PackLayout_" + c, r, required_actions=("AddSegment", "Finalize"))
     ctx.checker_cmds.append("tlc MC_PackLayout_{raw,lz}_p{2,3}.cfg PackLayout.tla")
     results = arch.run_archives(ctx, "all")
     summarize(ctx, results, "all")
